@@ -43,6 +43,13 @@ StripLeadingZeros(s) == IF Len(s) > 1 /\ Ch(s, 1) = "0" THEN StripLeadingZeros(S
 RECURSIVE StripTrailingZeros(_)
 StripTrailingZeros(s) == IF Len(s) > 0 /\ Ch(s, Len(s)) = "0" THEN StripTrailingZeros(SubSeq(s, 1, Len(s) - 1)) ELSE s
 
+LowerAZ == "abcdefghijklmnopqrstuvwxyz"
+UpperAZ == "ABCDEFGHIJKLMNOPQRSTUVWXYZ"
+LowerCh(c) == LET k == IndexOf(UpperAZ, c) IN IF k = 0 THEN c ELSE Ch(LowerAZ, k)
+RECURSIVE ToLowerFrom(_, _)
+ToLowerFrom(s, i) == IF i > Len(s) THEN "" ELSE LowerCh(Ch(s, i)) \o ToLowerFrom(s, i + 1)
+ToLower(s) == ToLowerFrom(s, 1)
+
 (* records read from JSON omit absent keys *)
 Get(r, k, d) == IF k \in DOMAIN r THEN r[k] ELSE d
 Has(r, k) == k \in DOMAIN r
